@@ -149,3 +149,10 @@ def guarded_feed(conn, data, cpu_seconds=None):
     """conn.feed(data); VConnection.feed itself runs process_io_buffer under a CPU-time budget and raises
     Livelock when a read loop stops consuming its buffer."""
     conn.feed(data)
+
+
+def too_many_livelocks(limit=5):
+    """True once `limit` reads have been caught spinning in this process: the run is failing already, and every
+    further spinning read costs CPU budget; work items stop early (and say so with Part.cap)."""
+    from vt.world import vworld
+    return vworld._FEED_STATE['livelocks'] >= limit
